@@ -1313,13 +1313,16 @@ void DOMLSParserImpl::endElement(const XMLElementDecl& elemDecl
                                                         break;
             case DOMLSParserFilter::FILTER_SKIP:        {
                                                             DOMNode* child=thisNode->getFirstChild();
+                                                            DOMNode* lastMoved=0;
                                                             while(child)
                                                             {
                                                                 DOMNode* next=child->getNextSibling();
                                                                 fCurrentParent->appendChild(child);
+                                                                lastMoved=child;
                                                                 child=next;
                                                             }
-                                                            fCurrentNode = (thisNode->getPreviousSibling()?thisNode->getPreviousSibling():fCurrentParent);
+                                                            // what follows must come after the spliced children
+                                                            fCurrentNode = lastMoved?lastMoved:(thisNode->getPreviousSibling()?thisNode->getPreviousSibling():fCurrentParent);
                                                             fCurrentParent->removeChild(thisNode);
                                                             thisNode->release();
                                                         }
